@@ -16,7 +16,7 @@ from sa.sym import I, ZERO
 from rules.c15 import rng_statics, referencing, RNG_CALLEES
 
 P = lambda p, f: sym.arrow(sym.sym(p), f)
-NOINLINE = summ.InlineLib(only=lambda f: False)
+NOINLINE = summ.LOCAL_HELPERS
 
 # entry point -> (description, expected sigma as a function of the parameter names)
 def expected_sigma(f):
@@ -186,12 +186,15 @@ def check_ks_noise(chk, v, rule="R2"):
             continue
         if p["kind"] == "local" and p["op"] == "+=" and len(p["loops"]) == 1:
             continue            # running sum of the draws
+        if p["kind"] == "local" and p["op"] in ("decl", "=", "++", "--"):
+            continue            # a named copy (its uses carry the value) or a walking pointer (an address, not a read)
         if p["kind"] == "store" and p["lv"][0] == "idx" and p["lv"][1] == narr:
             continue            # recentring statement
         if p["kind"] == "call" and p["name"] in ("std::accumulate", "accumulate"):
             continue
         consumers.append((p, reads))
     idx_inc = [p for p in kps if p["kind"] == "local" and p["op"] in ("+=", "++") and p["loops"]]
+    inline_centre = None
     if not consumers:
         problems.append("the recentred draws are never added to a row")
     elif len(consumers) != 1:
@@ -199,22 +202,15 @@ def check_ks_noise(chk, v, rule="R2"):
     else:
         cons, reads = consumers[0]
         nz = reads[0]
-        if len(reads) != 1 or nz[2][0] != "var":
-            raise AnalysisBroken("lweCreateKeySwitchKey: noise operand %s is not noise[<running index>]" % sym.show(nz))
-        inc = [p for p in idx_inc if p.get("id") == nz[2][2]]
-        if len(inc) != 1 or inc[0]["loops"] != cons["loops"] or inc[0]["guards"] != cons["guards"] or \
-                (inc[0]["op"] == "+=" and inc[0]["val"] != I(1)):
-            problems.append("the noise index is not advanced exactly once per consuming row")
-        decl = [p for p in kps if p["kind"] == "local" and p.get("id") == nz[2][2] and p["op"] == "decl"]
-        if len(decl) != 1 or decl[0]["val"] != ZERO:
-            problems.append("the noise index does not start at 0")
-        # number of consuming rows == number of draws, for every (n, t, basebit): index sets enumerated on a small grid
+        if len(set(reads)) != 1:
+            raise AnalysisBroken("lweCreateKeySwitchKey: the consuming statement reads several noise entries: %s" % [sym.show(r) for r in reads])
         from sa import secretflow
         dims = [n_, t_, bb]
         import itertools
 
-        def count(loops, guards, env):
-            tot = [0]
+        def visits(loops, guards, env, term=None):
+            """values of term (or None) at every iteration of the nest that passes the guards, in execution order"""
+            seen = []
 
             def go(k, env):
                 if k == len(loops):
@@ -224,40 +220,74 @@ def check_ks_noise(chk, v, rule="R2"):
                             raise AnalysisBroken("lweCreateKeySwitchKey: guard %s not evaluable" % sym.show(g_))
                         if not gv:
                             return
-                    tot[0] += 1
+                    tv = secretflow.eval_term(term, env) if term is not None else None
+                    if term is not None and tv is None:
+                        raise AnalysisBroken("lweCreateKeySwitchKey: noise index %s not evaluable" % sym.show(term)[:200])
+                    seen.append(tv)
                     return
                 l = loops[k]
                 lo, hi, stp = secretflow.eval_term(l["lo"], env), secretflow.eval_term(l["hi"], env), sym.const_value(l["step"])
-                if lo is None or hi is None or not stp or stp <= 0 or l["cmp"] not in ("<", "<="):
+                if lo is None or hi is None or not stp or l["cmp"] not in ("<", "<=", ">", ">="):
                     raise AnalysisBroken("lweCreateKeySwitchKey: loop at line %s not evaluable" % l.get("l"))
                 i_ = lo
-                while (i_ < hi) if l["cmp"] == "<" else (i_ <= hi):
+                while {"<": i_ < hi, "<=": i_ <= hi, ">": i_ > hi, ">=": i_ >= hi}[l["cmp"]]:
                     e2 = dict(env)
                     e2[l["var"]] = i_
                     go(k + 1, e2)
                     i_ += stp
+                    if len(seen) > 100000:
+                        raise AnalysisBroken("lweCreateKeySwitchKey: loop at line %s does not terminate on the grid" % l.get("l"))
             go(0, env)
-            return tot[0]
+            return seen
+        running = nz[2][0] == "var"
+        if running:
+            # a running index the executor could not put in closed form: it must start at 0 and advance once per row
+            inc = [p for p in idx_inc if p.get("id") == nz[2][2]]
+            if len(inc) != 1 or inc[0]["loops"] != cons["loops"] or inc[0]["guards"] != cons["guards"] or \
+                    (inc[0]["op"] == "+=" and inc[0]["val"] != I(1)):
+                problems.append("the noise index is not advanced exactly once per consuming row")
+            decl = [p for p in kps if p["kind"] == "local" and p.get("id") == nz[2][2] and p["op"] == "decl"]
+            if len(decl) != 1 or decl[0]["val"] != ZERO:
+                problems.append("the noise index does not start at 0")
+        # the rows consume exactly the draws, each once, for every (n, t, basebit): index sets enumerated on a small grid
         if draws:
             for vals in itertools.product((1, 2, 3), repeat=3):
                 env = dict(zip(dims, vals))
-                nd = count(draws[0]["loops"], draws[0]["guards"], env)
-                nc = count(cons["loops"], cons["guards"], env)
-                if nd != nc:
-                    problems.append("with n=%d, t=%d, basebit=%d: %d Gaussians are drawn and recentred, %d rows consume one (line %s): the mean "
-                                    "subtracted is not the mean of the values actually used" % (vals[0], vals[1], vals[2], nd, nc, cons["line"]))
+                drawn = visits(draws[0]["loops"], draws[0]["guards"], env, draws[0]["lv"][2])
+                used = visits(cons["loops"], cons["guards"], env, None if running else nz[2])
+                if running:
+                    used = list(range(len(used)))
+                if sorted(used) != sorted(drawn):
+                    if len(used) != len(drawn):
+                        problems.append("with n=%d, t=%d, basebit=%d: %d Gaussians are drawn and recentred, %d rows consume one (line %s): the mean "
+                                        "subtracted is not the mean of the values actually used" % (vals[0], vals[1], vals[2], len(drawn), len(used), cons["line"]))
+                    else:
+                        dup = sorted({u for u in used if used.count(u) > 1})
+                        problems.append("with n=%d, t=%d, basebit=%d: the rows consume noise entries %s, the draws fill %s (line %s)%s" % (
+                            vals[0], vals[1], vals[2], sorted(used)[:12], sorted(drawn)[:12], cons["line"],
+                            ": entries %s are used by several rows, which then share one noise value" % dup[:6] if dup else ""))
                     break
         if cons["kind"] == "call" and cons["name"] == "lweSymEncryptWithExternalNoise":
-            if cons["args"][2] != nz:
-                problems.append("row noise operand is %s, not noise[index]" % sym.show(cons["args"][2]))
+            a2 = _strip_casts(cons["args"][2])
+            if a2 == nz:
+                pass
+            elif a2[0] == "fop" and a2[1] == "-" and _strip_casts(a2[2]) == nz:
+                inline_centre = a2[3]
+            else:
+                problems.append("row noise operand is %s, not noise[index]" % sym.show(cons["args"][2])[:120])
             if cons["args"][4] != sym.sym(out_key):
                 problems.append("rows are encrypted under %s, not under the output key" % sym.show(cons["args"][4]))
-    # recentring: err = sum / sizeks ; noise[i] -= err over the same range
+    # recentring: err = sum / sizeks ; noise[i] -= err over the same range, or noise[index] - err where a row takes its noise
     recentre = [p for p in kps if p["kind"] == "store" and p["op"] == "-=" and p["loops"] and draws and p["lv"][1] == draws[0]["lv"][1]]
-    if len(recentre) != 1 or (recentre[0]["loops"][0]["lo"], recentre[0]["loops"][0]["hi"]) != (ZERO, sizeks):
-        problems.append("recentring does not cover exactly the draws")
-    if len(recentre) == 1 and draws:
-        problems += recentring_mean(v, ks, kps, recentre[0], draws[0], sizeks)
+    if inline_centre is not None and not recentre and draws:
+        problems += recentring_mean(v, ks, kps, {"val": inline_centre, "line": consumers[0][0]["line"]}, draws[0], sizeks)
+    elif inline_centre is not None and recentre:
+        problems.append("the draws are recentred in place and the mean is subtracted again where a row takes its noise: every row is off by the mean")
+    else:
+        if len(recentre) != 1 or (recentre[0]["loops"][0]["lo"], recentre[0]["loops"][0]["hi"]) != (ZERO, sizeks):
+            problems.append("recentring does not cover exactly the draws")
+        if len(recentre) == 1 and draws:
+            problems += recentring_mean(v, ks, kps, recentre[0], draws[0], sizeks)
     chk.require(not problems, rule, "lweCreateKeySwitchKey: one recentred Gaussian per row (i, j, h>=1), consumed in order", where=ks.where,
                 ok="n*t*(base-1) draws; mean of those draws subtracted from each; row (i,j,h) takes noise[index++] under the output key",
                 bad="; ".join(problems)[:500], variant=vn)
